@@ -5,7 +5,7 @@ cd /verif || exit 2
 ids="$*"; [ -z "$ids" ] && ids=$(ls seeded | grep -E '^C[0-9]+-m')
 out=/verif/seeded/RESULTS.txt; tmp=$(mktemp /tmp/seeded_all.XXXXXX)
 for id in $ids; do
-  d=seeded/$id; prop=${id%%-*}
+  d=/verif/seeded/$id; prop=${id%%-*}
   git -C /repo diff --quiet || { echo "/repo not clean"; exit 2; }
   if ! git -C /repo apply --check $d/patch.diff 2>/dev/null; then
     echo "$id: patch no longer applies to /repo HEAD (a later fix touches the same lines)" | tee -a $tmp; continue
